@@ -133,15 +133,15 @@ impl<'a> Gen<'a> {
     /// Uniform in `lo..=hi`.
     pub fn range(&mut self, lo: i128, hi: i128) -> i128 {
         assert!(lo <= hi);
-        let span = (hi - lo) as u128;
+        let span = (hi as u128).wrapping_sub(lo as u128);
         if span >= u64::MAX as u128 {
             let v = self.u128();
             if span == u128::MAX {
                 return lo.wrapping_add(v as i128);
             }
-            return lo + (v % (span + 1)) as i128;
+            return lo.wrapping_add((v % (span + 1)) as i128);
         }
-        lo + self.below(span as u64 + 1) as i128
+        lo.wrapping_add(self.below(span as u64 + 1) as i128)
     }
     pub fn range_u64(&mut self, lo: u64, hi: u64) -> u64 {
         self.range(lo as i128, hi as i128) as u64
